@@ -485,6 +485,67 @@ def smallorder_case(rec, d):
                 "%s: %s" % (type(ex).__name__, ex))
 
 
+def remote_validation_case(rec, P, form):
+    """a remote key given as bytes / DER / PEM is used only after passing
+    public-key validation: on a cofactor curve every on-curve point outside
+    the subgroup generated by G must be refused"""
+    from ecdsa.ecdh import ECDH
+    from ecdsa.keys import MalformedPointError, SigningKey
+    from ecdsa.der import UnexpectedDER
+    from .c08 import CurveInfo
+    ci = CurveInfo.get(rec)
+    c = ci.env.curve
+    l = ci.plen
+    data = b"\x04" + P[0].to_bytes(l, "big") + P[1].to_bytes(l, "big")
+    e = ECDH(c)
+    e.load_private_key(SigningKey.from_secret_exponent(3, c))
+    try:
+        if form == "bytes":
+            e.load_received_public_key_bytes(data)
+        elif form == "der":
+            e.load_received_public_key_der(rd.spki(tuple(c.oid), data))
+        else:
+            e.load_received_public_key_pem(
+                rd.pem(rd.spki(tuple(c.oid), data), "PUBLIC KEY"))
+        secret = e.generate_sharedsecret()
+        got = ("ok", secret)
+    except MalformedPointError:
+        got = ("MalformedPointError",)
+    except Exception as ex:
+        got = ("raises", "%s: %s" % (type(ex).__name__, ex))
+    if P in ci.sub:
+        S = ci.env.mult[(3 * ci.env.idx[P]) % ci.n]
+        if got != ("ok", S[0]):
+            return ("remote-valid-key:" + form, ("ok", S[0]), got)
+        return None
+    if got == ("MalformedPointError",):
+        return None
+    cls = "remote-key-outside-subgroup-used:" + form
+    if P in ci.y0class:
+        cls += ":n*Q-has-y==0"
+    return (cls, "MalformedPointError", got)
+
+
+def shard_remote_validation(arg):
+    rec, pts = arg
+    sh = Shard()
+    for P in pts:
+        for form in ("bytes", "der", "pem"):
+            sh.n += 1
+            sh.nt += 1
+            bad = remote_validation_case(rec, P, form)
+            if bad:
+                sh.hist["fail:" + bad[0]] += 1
+                sh.violation("remote", bad[0],
+                             dict(rec=rec, P=list(P), form=form),
+                             bad[1], bad[2])
+    sh.extra["exchanges"] = sh.n
+    sh.sample(dict(curve=[rec["p"], rec["a"], rec["b"]], h=rec["h"],
+                   remote_point=list(pts[0]), forms=["bytes", "der", "pem"]),
+              cap=1)
+    return sh
+
+
 def real_case(name, i, j, form):
     from ecdsa import curves as cv
     from ecdsa.ecdh import ECDH
@@ -562,6 +623,9 @@ def replay(check, case):
             bad = None
     elif check == "real":
         bad = real_case(case["curve"], case["i"], case["j"], case["form"])
+    elif check == "remote":
+        bad = remote_validation_case(case["rec"], tuple(case["P"]),
+                                     case["form"])
     else:
         raise ValueError(check)
     if not bad:
@@ -609,6 +673,18 @@ def main(ctx):
                          (t.rec(), ch, forms if t.n < 100 or not ctx.quick
                           else ["object", "der"])))
         cover.append(t.name)
+    # remote keys outside the subgroup on cofactor curves
+    for tags in (["h2", "p2byte"], ["h4cyclic", "p2byte"],
+                 ["h4noncyclic", "p2byte"]):
+        cands = [t for t in catalog.all_toys() if t.has(*tags) and t.p < 400]
+        for t in [cands[ctx.seed % len(cands)]] + \
+                ([cands[(ctx.seed + 1) % len(cands)]] if not ctx.quick else []):
+            pts = t.group().points
+            for ch in common.chunks(pts, 4):
+                jobs.append((shard_remote_validation,
+                             "remote-key-validation-cofactor-curves",
+                             (t.rec(), ch)))
+            cover.append(t.name)
     from .c03 import prod_scalars
     from ecdsa import curves as cv
     rj = []
